@@ -97,20 +97,14 @@ func (in *InExpr) Resolve(types []reflect.Type, isVariadic bool) error {
 // Eval InExpr 表达式执行
 func (in *InExpr) Eval(input []reflect.Value, isVariadic bool) (bool, error) {
 	if isVariadic {
-		// 可变参数需要展开参数数组
-		expandArgs := make([]reflect.Value, 0)
-		for _, v := range input {
-			rv := reflect.ValueOf(v.Interface())
-			for i := 0; i < rv.Len(); i++ {
-				expandArgs = append(expandArgs, rv.Index(i))
-			}
-		}
-		input = expandArgs
+		// 可变参数需要展开参数数组(只有最后一个参数是可变参数数组)
+		input = ExpandVariadic(input)
 	}
 outer:
 	for _, one := range in.expressions {
 		if len(input) != len(one) {
-			return false, nil
+			// 参数个数不同的候选项不匹配, 继续比较下一个候选项
+			continue
 		}
 		for i, param := range one {
 			v, err := param.Eval([]reflect.Value{input[i]}, isVariadic)
@@ -125,4 +119,19 @@ outer:
 		return true, nil
 	}
 	return false, nil
+}
+
+// ExpandVariadic 展开可变参数调用的入参: 最后一个入参是可变参数数组, 展开为逐个元素; 其余入参保持不变
+func ExpandVariadic(input []reflect.Value) []reflect.Value {
+	if len(input) == 0 {
+		return input
+	}
+	last := len(input) - 1
+	expandArgs := make([]reflect.Value, 0, len(input))
+	expandArgs = append(expandArgs, input[:last]...)
+	rv := reflect.ValueOf(input[last].Interface())
+	for i := 0; i < rv.Len(); i++ {
+		expandArgs = append(expandArgs, rv.Index(i))
+	}
+	return expandArgs
 }
